@@ -27,7 +27,7 @@ def run(tier, res):
     C.lean_phase(res, PROP, GEN, TARGETS)
     n = 150 if tier == "quick" else 1600
     mismatches = isimip_corr.correspondence(rng, n, tier, res)
-    n_aux = 40 if tier == "quick" else 300
+    n_aux = 16 if tier == "quick" else 150
     if hasattr(isimip_corr, "correspondence_aux"):
         mismatches += isimip_corr.correspondence_aux(rng, n_aux, tier, res)
     res.extra["mismatches"] = len(mismatches)
